@@ -663,3 +663,36 @@ def apply_partials(t):
                     tuple(x[1][3]) + tuple(x[3]))
         return x
     return map_term(t, f)
+
+
+def text_parts(t):
+    """Pieces of a string built by  sep.join([a, b, ...])  or an f-string,
+    as a flat list of terms (constant pieces as ('const', str)); None when
+    the construction is not recognised."""
+    if t[0] == "mcall" and t[2] == "join" and t[1][0] == "const" and \
+            len(t[3]) == 1 and t[3][0][0] in ("list", "tuple"):
+        out = []
+        for i, x in enumerate(t[3][0][1]):
+            if i and t[1][1] != "":
+                out.append(t[1])
+            out.append(x)
+        return out
+    if t[0] == "fstr":
+        return [x for x in t[1] if x != ("const", "")]
+    if t[0] == "bin" and t[1] == "+":
+        a, b = text_parts(t[2]), text_parts(t[3])
+        return None if a is None or b is None else a + b
+    if t[0] == "const" and isinstance(t[1], str):
+        return [t]
+    return None
+
+
+def unmap(t):
+    """elem(map(f, X))  ->  f(elem(X))   (f a named function)"""
+    def f(x):
+        if x[0] == "elem" and isinstance(x[1], tuple) and x[1] and \
+                x[1][0] == "call" and x[1][1] == "builtins.map" and \
+                len(x[1][2]) == 2 and x[1][2][0][0] in ("name", "free"):
+            return ("call", x[1][2][0][1], (("elem", x[1][2][1]),), ())
+        return x
+    return map_term(t, f)
